@@ -57,8 +57,10 @@ Inductive rpc :=
 | RAtRead (st : status)          (* D0 done: status read; gate disc.read *)
 | RReRead                        (* the CAS of D1 failed: loop back to D0 *)
 | RAtStored (st : status)        (* D1 done; gate disc.stored *)
-| RAtPrecancel (st : status)     (* D2,D3 done; gate disc.precancel *)
-| RWantMu (st : status) (n : nat) (* D4: callCmdMap.Range over the n calls tabled when it began,
+| RWantMu1 (st : status) (n : nat) (* D2 done; first cancelPendingCalls (before the wait for the handlers):
+                                    callCmdMap.Range over the n calls tabled when it began *)
+| RAtPrecancel (st : status)     (* first cancel pass and D3 done; gate disc.precancel *)
+| RWantMu (st : status) (n : nat) (* D4: second cancelPendingCalls, same range discipline,
                                     taking each callCmd.mu *)
 | RAtPresock                     (* D4,D5 done; gate disc.presock *)
 | RWaitLock                      (* D6 done; in redialForClient, wants s.lock *)
@@ -233,8 +235,13 @@ Definition reader_step (s : st) (i : nat) : st :=
         | x => set_rpc (set_status s SPassiveClosing) i (RAtStored x)
         end
     | RAtStored x =>
-        (* D2: sessHub.delete(s.ID()) with the id the socket has NOW; D3: no handlers here *)
-        set_rpc (set_index s (idremove (id s) (index s))) i (RAtPrecancel x)
+        (* D2: sessHub.deleteSession(s) with the id the socket has NOW; then the first
+           cancelPendingCalls begins its range *)
+        set_rpc (set_index s (idremove (id s) (index s))) i (RWantMu1 x (length (calls s)))
+    | RWantMu1 x n =>
+        (* blocked while a call of its range is inside AsyncCall; D3: no handlers here *)
+        if existsb holds_mu (firstn n (calls s)) then s
+        else set_rpc (set_calls s (cancel_all (firstn n (calls s)) ++ skipn n (calls s))) i (RAtPrecancel x)
     | RAtPrecancel x => set_rpc s i (RWantMu x (length (calls s)))
     | RWantMu x n =>
         (* D4 takes the callCmd.mu of every call in its range: blocked while one of them is
@@ -456,7 +463,8 @@ Definition step (s : st) (e : ev) : st :=
   | EvReply k => reply_step s k
   | EvCancel i k =>
       match nth_error (readers s) i, nth_error (calls s) k with
-      | Some (_, RWantMu _ n), Some cl =>
+      | Some (_, RWantMu _ n), Some cl
+      | Some (_, RWantMu1 _ n), Some cl =>
           match c_pc cl with
           | CAwait _ => if Nat.ltb k n then set_cpc s k (CDone RClosed) else s
           | _ => s
